@@ -20,6 +20,8 @@ using namespace c13;
 #define AXES (intsi(a,"axes"))
 #define KEEP nm::None, nm::None, nm::True
 #define DROP nm::None, nm::None, nm::False
+#define SUMALL(x) view::reduce_add(x, nm::None)
+#define MAXALL(x) view::reduce_maximum(x, nm::None)
 
 template <typename view_t>
 static std::string run_sycl(const std::string& op, const view_t& v, const Args& a) {
@@ -74,6 +76,15 @@ std::string handle(const std::string& op, const Args& a) {
     PROG2("tr_neg_add",  view::transpose(view::negative(view::add(x0, x1)), AXES))
     // a view operand that is not the first operand (known finding extract.nonfirst-view-operand)
     PROG3("add_mul2",    view::add(x0, view::multiply(x1, x2)))
+#elif C13_SYCL_GROUP == 4
+    // number-valued sub-views (reduction over all axes) as operands of binary ufuncs; add_x_maxall: non-first position (known finding)
+    PROG2("mul_sumall_x",     view::multiply(SUMALL(x0), x1))
+    PROG2("sub_maxall_x",     view::subtract(MAXALL(x0), x1))
+    PROG3("neg_mul_sumall_mul_x", view::negative(view::multiply(SUMALL(view::multiply(x0, x1)), x2)))
+    PROG2("add_x_maxall",     view::add(x0, MAXALL(x1)))
+    // a number literal operand: passed to the kernel by value (context_t::run, sycl/context.hpp:585)
+    PROG1("add_x_lit",        view::add(x0, (int)integer(a,"lit")))
+    PROG1("mul_lit_x",        view::multiply((int)integer(a,"lit"), x0))
 #elif C13_SYCL_GROUP == 3
     // column-major host arrays (known finding kernel.colmajor-operand)
     PROG1("transpose_col", view::transpose(x0, AXES))
